@@ -603,6 +603,12 @@ func (st *tunnelServerStream) readMsgLocked() (data []byte, ok bool, err error) 
 					err = context.Canceled
 				}
 			}
+			if err == io.EOF && msgLen != -1 {
+				// The client half-closed the stream in the middle of a
+				// message (its send was interrupted, e.g. by cancellation).
+				// That is not a clean end of the request stream.
+				return nil, false, status.Errorf(codes.InvalidArgument, "client half-closed stream before request message finished (%d/%d)", len(b), msgLen)
+			}
 			return nil, true, err
 		}
 
